@@ -154,124 +154,124 @@ func RunCheck(p *Prop, tier string) int {
 	boundCompleted := -1
 	deadlineAll := start.Add(budget)
 	for _, passBound := range passes {
-	  passTruncated := false
-	  var passResults []*WorkerResult
-	  remaining := time.Until(deadlineAll)
-	  if remaining < 5*time.Second {
-		break
-	  }
-	  for vi, variant := range variants {
-		bin, env := VariantEnv(variant)
-		exe := filepath.Join(binDir, "vcheck-"+bin)
-		golden := ""
-		if p.CrossVariant && vi > 0 {
-			golden = filepath.Join(work, "golden.json")
+		passTruncated := false
+		var passResults []*WorkerResult
+		remaining := time.Until(deadlineAll)
+		if remaining < 5*time.Second {
+			break
 		}
-		queue := filepath.Join(work, "queue-"+variant)
-		os.WriteFile(queue, []byte("0"), 0o644)
-		var mu sync.Mutex
-		var wg sync.WaitGroup
-		var vres []*WorkerResult
-		for s := 0; s < nshards; s++ {
-			wg.Add(1)
-			sem <- struct{}{}
-			go func(s int) {
-				defer wg.Done()
-				defer func() { <-sem }()
-			  for attempt := 0; attempt < 12; attempt++ {
-				out := filepath.Join(work, fmt.Sprintf("%s-%d-%d.json", variant, s, attempt))
-				cmd := exec.Command(exe, "--worker", "--id", p.ID, "--tier", tier, "--variant", variant,
-					"--shard", fmt.Sprintf("%d/%d", s, nshards), "--out", out,
-					"--budget", fmt.Sprint(int(remaining.Seconds())), "--mem", fmt.Sprint(mem), "--bound", fmt.Sprint(passBound))
-				cmd.Env = append(os.Environ(), env...)
-				if os.Getenv("GOMAXPROCS") == "" {
-					cmd.Env = append(cmd.Env, "GOMAXPROCS=2")
-				}
-				cmd.Env = append(cmd.Env, "VERIF_QUEUE="+queue)
-				if golden != "" {
-					cmd.Env = append(cmd.Env, "VERIF_GOLDEN="+golden)
-				}
-				logf, _ := os.Create(out + ".log")
-				cmd.Stdout, cmd.Stderr = logf, logf
-				err := cmd.Run()
-				logf.Close()
-				b, rerr := os.ReadFile(out)
-				r := &WorkerResult{}
-				if rerr != nil || json.Unmarshal(b, r) != nil {
-					// the worker died without writing a result (fatal runtime
-					// error such as out of memory): attribute it to the case
-					// it was executing, recorded in the side file.
-					r = &WorkerResult{Shard: s, Variant: variant, Truncated: true, ViolCounts: map[string]int64{}}
-					if cb, e := os.ReadFile(out + ".cur"); e == nil && len(cb) > 0 {
-						v := Violation{Property: p.ID, Tier: tier, Variant: variant}
-						if json.Unmarshal(cb, &v.Choices) == nil {
-							lg, _ := os.ReadFile(out + ".log")
-							kind, shape := "crash", "worker-died"
-							if strings.Contains(string(lg), "out of memory") || strings.Contains(string(lg), "cannot allocate memory") {
-								shape = "out-of-memory"
-							}
-							tail := string(lg)
-							if len(tail) > 3000 {
-								tail = tail[:3000]
-							}
-							v.Case = "(worker died during this execution)"
-							v.Failure = Failure{Kind: kind, Shape: shape, Detail: fmt.Sprintf("worker exit: %v\n%s", err, tail)}
-							r.Violations = []Violation{v}
-							r.ViolCounts[v.Key()] = 1
+		for vi, variant := range variants {
+			bin, env := VariantEnv(variant)
+			exe := filepath.Join(binDir, "vcheck-"+bin)
+			golden := ""
+			if p.CrossVariant && vi > 0 {
+				golden = filepath.Join(work, "golden.json")
+			}
+			queue := filepath.Join(work, "queue-"+variant)
+			os.WriteFile(queue, []byte("0"), 0o644)
+			var mu sync.Mutex
+			var wg sync.WaitGroup
+			var vres []*WorkerResult
+			for s := 0; s < nshards; s++ {
+				wg.Add(1)
+				sem <- struct{}{}
+				go func(s int) {
+					defer wg.Done()
+					defer func() { <-sem }()
+					for attempt := 0; attempt < 12; attempt++ {
+						out := filepath.Join(work, fmt.Sprintf("%s-%d-%d.json", variant, s, attempt))
+						cmd := exec.Command(exe, "--worker", "--id", p.ID, "--tier", tier, "--variant", variant,
+							"--shard", fmt.Sprintf("%d/%d", s, nshards), "--out", out,
+							"--budget", fmt.Sprint(int(remaining.Seconds())), "--mem", fmt.Sprint(mem), "--bound", fmt.Sprint(passBound))
+						cmd.Env = append(os.Environ(), env...)
+						if os.Getenv("GOMAXPROCS") == "" {
+							cmd.Env = append(cmd.Env, "GOMAXPROCS=2")
 						}
-					} else {
-						lg, _ := os.ReadFile(out + ".log")
-						r.HarnessError = fmt.Sprintf("worker %s/%d died: %v: %s", variant, s, err, tailStr(string(lg), 2000))
+						cmd.Env = append(cmd.Env, "VERIF_QUEUE="+queue)
+						if golden != "" {
+							cmd.Env = append(cmd.Env, "VERIF_GOLDEN="+golden)
+						}
+						logf, _ := os.Create(out + ".log")
+						cmd.Stdout, cmd.Stderr = logf, logf
+						err := cmd.Run()
+						logf.Close()
+						b, rerr := os.ReadFile(out)
+						r := &WorkerResult{}
+						if rerr != nil || json.Unmarshal(b, r) != nil {
+							// the worker died without writing a result (fatal runtime
+							// error such as out of memory): attribute it to the case
+							// it was executing, recorded in the side file.
+							r = &WorkerResult{Shard: s, Variant: variant, Truncated: true, ViolCounts: map[string]int64{}}
+							if cb, e := os.ReadFile(out + ".cur"); e == nil && len(cb) > 0 {
+								v := Violation{Property: p.ID, Tier: tier, Variant: variant}
+								if json.Unmarshal(cb, &v.Choices) == nil {
+									lg, _ := os.ReadFile(out + ".log")
+									kind, shape := "crash", "worker-died"
+									if strings.Contains(string(lg), "out of memory") || strings.Contains(string(lg), "cannot allocate memory") {
+										shape = "out-of-memory"
+									}
+									tail := string(lg)
+									if len(tail) > 3000 {
+										tail = tail[:3000]
+									}
+									v.Case = "(worker died during this execution)"
+									v.Failure = Failure{Kind: kind, Shape: shape, Detail: fmt.Sprintf("worker exit: %v\n%s", err, tail)}
+									r.Violations = []Violation{v}
+									r.ViolCounts[v.Key()] = 1
+								}
+							} else {
+								lg, _ := os.ReadFile(out + ".log")
+								r.HarnessError = fmt.Sprintf("worker %s/%d died: %v: %s", variant, s, err, tailStr(string(lg), 2000))
+							}
+						}
+						mu.Lock()
+						vres = append(vres, r)
+						mu.Unlock()
+						// a worker that hung or died abandons its current root; a fresh
+						// one carries on with the remaining tickets
+						if err == nil || time.Now().After(deadlineAll) || r.HarnessError != "" {
+							break
+						}
+					}
+				}(s)
+			}
+			wg.Wait()
+			sort.Slice(vres, func(i, j int) bool { return vres[i].Shard < vres[j].Shard })
+			passResults = append(passResults, vres...)
+			for _, r := range vres {
+				if r.Truncated {
+					passTruncated = true
+				}
+			}
+			if p.CrossVariant && vi == 0 {
+				g := map[uint64]uint64{}
+				for _, r := range vres {
+					for k, v := range r.CaseOutcomes {
+						g[k] = v
 					}
 				}
-				mu.Lock()
-				vres = append(vres, r)
-				mu.Unlock()
-				// a worker that hung or died abandons its current root; a fresh
-				// one carries on with the remaining tickets
-				if err == nil || time.Now().After(deadlineAll) || r.HarnessError != "" {
-					break
-				}
-			  }
-			}(s)
-		}
-		wg.Wait()
-		sort.Slice(vres, func(i, j int) bool { return vres[i].Shard < vres[j].Shard })
-		passResults = append(passResults, vres...)
-		for _, r := range vres {
-			if r.Truncated {
-				passTruncated = true
+				b, _ := json.Marshal(g)
+				os.WriteFile(filepath.Join(work, "golden.json"), b, 0o644)
 			}
 		}
-		if p.CrossVariant && vi == 0 {
-			g := map[uint64]uint64{}
-			for _, r := range vres {
-				for k, v := range r.CaseOutcomes {
-					g[k] = v
-				}
-			}
-			b, _ := json.Marshal(g)
-			os.WriteFile(filepath.Join(work, "golden.json"), b, 0o644)
-		}
-	  }
-	  // a later pass re-executes everything of the earlier one: keep the
-	  // deepest pass that produced results (and every violation seen)
-	  if !passTruncated {
-		boundCompleted = passBound
-		results = passResults
-	  } else {
-		if len(results) == 0 {
+		// a later pass re-executes everything of the earlier one: keep the
+		// deepest pass that produced results (and every violation seen)
+		if !passTruncated {
+			boundCompleted = passBound
 			results = passResults
 		} else {
-			// keep the completed pass for the counts, add violations of the partial one
-			for _, r := range passResults {
-				results = append(results, &WorkerResult{Shard: r.Shard, Variant: r.Variant, Truncated: true,
-					Violations: r.Violations, ViolCounts: r.ViolCounts, HarnessError: r.HarnessError,
-					Executions: 0, Counters: map[string]int64{"partial_pass_executions": r.Executions}})
+			if len(results) == 0 {
+				results = passResults
+			} else {
+				// keep the completed pass for the counts, add violations of the partial one
+				for _, r := range passResults {
+					results = append(results, &WorkerResult{Shard: r.Shard, Variant: r.Variant, Truncated: true,
+						Violations: r.Violations, ViolCounts: r.ViolCounts, HarnessError: r.HarnessError,
+						Executions: 0, Counters: map[string]int64{"partial_pass_executions": r.Executions}})
+				}
 			}
+			break
 		}
-		break
-	  }
 	}
 
 	// aggregate
@@ -411,27 +411,27 @@ func RunCheck(p *Prop, tier string) int {
 	}
 
 	cov := map[string]any{
-		"evaluations":         evals,
-		"executions":          execs,
-		"distinct_nontrivial": len(nontriv),
-		"distinct_outcomes":   len(outcomes),
-		"rule":                p.Rule,
-		"samples":             samples,
-		"exhaustive":          !truncated,
-		"choice_points":       points,
-		"max_depth":           maxDepth,
-		"deviation_bound":     boundOf(p, tier),
+		"evaluations":               evals,
+		"executions":                execs,
+		"distinct_nontrivial":       len(nontriv),
+		"distinct_outcomes":         len(outcomes),
+		"rule":                      p.Rule,
+		"samples":                   samples,
+		"exhaustive":                !truncated,
+		"choice_points":             points,
+		"max_depth":                 maxDepth,
+		"deviation_bound":           boundOf(p, tier),
 		"deviation_bound_completed": boundCompleted,
-		"max_deviations_used": maxCost,
-		"variants":            variants,
-		"executions_by_variant": perVariantExec,
-		"shards":              nshards,
-		"counters":            counters,
-		"violation_groups":    violCounts,
-		"confirmed_groups":    confirmed,
-		"nondeterministic":    nondetKeys,
-		"groups_not_replayed": max(0, unknownSeen-maxConfirm),
-		"budget_s":            budget.Seconds(),
+		"max_deviations_used":       maxCost,
+		"variants":                  variants,
+		"executions_by_variant":     perVariantExec,
+		"shards":                    nshards,
+		"counters":                  counters,
+		"violation_groups":          violCounts,
+		"confirmed_groups":          confirmed,
+		"nondeterministic":          nondetKeys,
+		"groups_not_replayed":       max(0, unknownSeen-maxConfirm),
+		"budget_s":                  budget.Seconds(),
 	}
 	if p.MC || p.Level == "model_checking" {
 		cov["states"] = len(states)
